@@ -10,6 +10,7 @@ mod e1_codec;
 mod e1_quorum;
 mod e1_unit;
 mod e2_batchmaker;
+mod e2_ownbatch;
 mod e2_quorumwaiter;
 mod e2_sender;
 mod e2_store;
@@ -74,6 +75,7 @@ fn main() {
         "store" => e2_store::run(&o),
         "batchmaker" => e2_batchmaker::run(&o),
         "sender" => e2_sender::run(&o),
+        "ownbatch" => e2_ownbatch::run(&o),
         "quorumwaiter" => e2_quorumwaiter::run(&o),
         "cons" => e3_cons::run(&o),
         "netsim" => e4_netsim::run(&o),
